@@ -465,3 +465,28 @@ theorem ipmReadAll_truncated {α} {ml : Nat} (h32 : ml < lim32) (dec : Bytes →
       congr 2; omega
 
 end Cardutil.Vbs
+
+namespace Cardutil.Vbs
+
+/-- when every record the VBS layer delivers decodes, the IPM reader delivers their decodings and
+    ends the same way -/
+theorem ipmReadAll_of_readAll {σ α} (S : Src σ) (ml : Nat) (dec : Bytes → Outcome α) (val : Bytes → α)
+    (fuel : Nat) (st : RState σ) (h : ∀ r ∈ (readAll S ml fuel st).1, dec r = .ok (val r)) :
+    ipmReadAll S ml dec fuel st = ((readAll S ml fuel st).1.map val, (readAll S ml fuel st).2) := by
+  induction fuel generalizing st with
+  | zero => rfl
+  | succ f ih =>
+    rw [ipmReadAll_succ]
+    rw [readAll_succ] at h ⊢
+    cases hn : next S ml st with
+    | done e => simp
+    | record r st' =>
+      rw [hn] at h
+      simp only at h ⊢
+      have hr := h r (by simp)
+      rw [hr]
+      simp only
+      rw [ih st' (fun x hx => h x (by simp [hx]))]
+      simp
+
+end Cardutil.Vbs
